@@ -78,14 +78,16 @@ def gen_scripts(family, tier, wd, seed, rnd):
     """TLC-generated input scripts: exhaustive path cover to a small depth plus simulated random walks."""
     g = GEN[family]
     out = []
-    depth = {'layout': 4, 'retention': 5, 'dedup': 3, 'offsets': 3, 'grpoffsets': 4, 'layout_enc': 4}[family] + (1 if tier == 'thorough' else 0)
+    # (the number of scripts grows by a factor of 10-60 per level: the thorough tier deepens only where that stays feasible and
+    #  otherwise widens the batches and multiplies the simulated walks and configurations)
+    depth = {'layout': 4, 'retention': 5, 'dedup': 3, 'offsets': 3, 'grpoffsets': 4, 'layout_enc': 4}[family] + (1 if tier == 'thorough' and family in ('layout', 'layout_enc') else 0)
     consts = dict(g['consts']); consts['MaxOps'] = depth
     if family == 'dedup' and tier == 'quick':
         consts['MaxBatch'] = 2     # 3 ids x batches <= 3 gives 39 sends per step; the walks below keep batches of 3
     cfg = os.path.join(wd, f'Gen_{family}.cfg')
     write_cfg(cfg, 'MCSpec', consts, invariants=['EmitScript'], constraint='Bounded')
     t0 = time.time()
-    paths = tlc_scripts('MC_IggyLog', cfg, wd, workers=4, timeout=900)
+    paths = tlc_scripts('MC_IggyLog', cfg, wd, workers=4, timeout=2400)
     log(f'{family}: {len(paths)} path-cover scripts (depth {depth}) in {time.time() - t0:.0f}s')
     paths = [s for s in paths if len(s) >= 2]
     # simulated walks (deeper), guards respected
